@@ -7,6 +7,7 @@ tree, splices the committed contracts, runs Verus, maps every failed proof
 obligation back to its named clause, runs the vacuity canaries, writes
 /verif/evidence/<id>.json and exits 0 / 1 (+ VIOLATION line) / 2 (undecided).
 """
+import re
 import concurrent.futures as cf
 import json
 import os
@@ -160,6 +161,28 @@ def main():
                     continue
                 failures.append(dict(f, group=gname))
                 failed_obs[f["obligation"]] = f
+        # callee rule: verification is modular, so the proof of a P-labelled clause of unit U leans on the contract of every
+        # unit V that U calls. When V fails a clause that does not itself name P, P's proof has a hole: not an alarm
+        # (the failing clause belongs to another property's statement), but not decided either - never silently exit 0.
+        p_units = set(o["unit"] for o in obs)
+        for f in am["failures"]:
+            if f.get("props") and (pid in f["props"] or "*" in f["props"]):
+                continue
+            v = f.get("clause_unit") or f.get("owner")
+            if not v or v not in built["main"].units:
+                continue
+            vname = v.split("/")[0].split("::")[-1].replace("fn ", "").strip()
+            if not re.match(r"^[A-Za-z_][A-Za-z0-9_]*$", vname):
+                continue
+            for uid in sorted(p_units):
+                if uid == v or uid.split("/")[0] == v.split("/")[0]:
+                    continue
+                lo, hi = built["main"].units[uid]["range"]
+                body = "\n".join(built["main"].lines[lo:hi])
+                if re.search(r"(?:\.|::|\b)%s\s*\(" % re.escape(vname), body):
+                    undecided.append("%s: %s (a callee of %s, whose clauses for %s are proved against its contract) fails %s: %s is not decided"
+                                     % (gname, v, uid, pid, f["obligation"], pid))
+                    break
         # stability: a clause failing only under another seed is unstable -> undecided
         for s in r["stab"]:
             for u in s["undecided"]:
